@@ -270,7 +270,7 @@ def s_len(a):
     return LEN_FN(a.atom)
 
 
-LEN_FN = z3.Function('atom_len', z3.BitVecSort(ATOM_BITS), z3.IntSort())
+LEN_FN = z3.Function('atom_len', z3.BitVecSort(ATOM_BITS), z3.BitVecSort(64))
 
 
 # ---------------------------------------------------------------------------- copying
